@@ -224,8 +224,71 @@ def devIntMin64 (f : Failure) : Bool :=
   | some o => hasMinInt64 o
   | none => false
 
+mutual
+/-- the statement is printed with a leading `(`: a parenthesised binary node at the start of its left spine -/
+def startsParen : T → Bool
+  | .node "bin" [_, p] ks => p == "1" || startsParenHead ks
+  | _ => false
+def startsParenHead : List T → Bool
+  | k :: _ => startsParen k
+  | [] => false
+end
+
+mutual
+/-- the statement is printed with a leading `-`: unary minus or a negative literal at the start of its left spine -/
+def startsMinus : T → Bool
+  | .node "bin" [_, p] ks => p != "1" && startsMinusHead ks
+  | .node "un" [op] _ => op == "-"
+  | .node "num" ["i", _, v] _ => (stripMinus v).isSome
+  | .node "num" ["f", v] _ => (stripMinus v).isSome
+  | .node "dur" [ns, _] _ => (stripMinus ns).isSome
+  | _ => false
+def startsMinusHead : List T → Bool
+  | k :: _ => startsMinus k
+  | [] => false
+end
+
+mutual
+/-- the statement is printed with a bare identifier as its LAST token (so that a following `(` makes it a call) -/
+def endsBareId : T → Bool
+  | .node "id" _ _ => true
+  | .node "un" _ ks => endsBareIdLast ks
+  | .node "lambda" _ ks => endsBareIdLast ks
+  | .node "decl" _ ks => endsBareIdLast ks
+  | .node "bin" [_, p] ks => p != "1" && endsBareIdLast ks
+  | _ => false
+def endsBareIdLast : List T → Bool
+  | [k] => endsBareId k
+  | _ :: ks => endsBareIdLast ks
+  | [] => false
+end
+
+/-- the statement ends in an expression that a following binary `-` continues -/
+def endsInExpr : T → Bool
+  | .node "decl" _ [_, .node tag _ _] => tag != "chain" && tag != "list"
+  | .node tag _ _ => tag != "chain" && tag != "list" && tag != "typedecl" && tag != "dbrp" && tag != "decl"
+
+/-- `b` follows `a` and is glued to it by Format: TICKscript has no statement separator and Format drops the
+parentheses around a non-binary operand -/
+def strayPair (a b : T) : Bool := (startsParen b && endsBareId a) || (startsMinus b && endsInExpr a)
+
+def hasStray : List T → Bool
+  | a :: b :: rest => strayPair a b || hasStray (b :: rest)
+  | _ => false
+
+/-- `stray-expr-statement`: the script has an expression statement that is printed with a leading `(` right after
+a statement printed with a trailing bare identifier (`var x = (a)  (b + c)` is printed `var x = a  (b + c)` = the
+call `a(b + c)`), or with a leading `-` right after a statement that ends in an expression (`var x = 1  (-2)` is
+printed `var x = 1  -2` = `1 - 2`). -/
+def devStrayExprStmt (f : Failure) : Bool :=
+  (f.clause == "meaning-preserved" || f.clause == "formatted-parses") && f.detail == "sreparse" &&
+  match f.orig with
+  | some (.node "program" _ ks) => hasStray (ks.filter (fun k => !isComment k))
+  | _ => false
+
 def deviationOf (f : Failure) : Option String :=
   if devIntMin64 f then some "int-min64"
+  else if devStrayExprStmt f then some "stray-expr-statement"
   else none
 
 /-- Runs the spec over a history. Returns the keys of the recorded deviations met (the history is then judged
@@ -244,7 +307,7 @@ def specRun (evs : List Ev) : List String × Option Failure :=
         | some k =>
           -- continue relative to what the deviation produced
           let st'' := match e with
-            | .tree _ (some t) => { st' with orig := some t }
+            | .tree _ (some t) => { st' with orig := some t, pipe0 := none }   -- the deviated program is the new reference, for its pipeline too
             | .tree _ none => { st' with dead := true }
             | _ => st'
           go st'' (if known.contains k then known else k :: known) es
